@@ -3,6 +3,7 @@ package checks
 import (
 	"encoding/json"
 	"fmt"
+	"os"
 	"os/exec"
 	"path/filepath"
 	"sort"
@@ -67,6 +68,37 @@ type c10Payload struct {
 	K        int         `json:"crash_before_point"`
 	Point    string      `json:"point"`
 	Syscall  bool        `json:"syscall_level"` // K counts file system calls under the directory (ptrace) instead of shim points
+	MapOrder string      `json:"map_order"`     // VERIF_MAPORDER of the run: "" = every map-range site in sorted key order; "j:p" = the j-th map range takes the p-th permutation
+}
+
+// c10MapOrders lists the map-iteration orders to explore for a program: sorted order everywhere, plus every
+// single map range (of the complete sorted-order run) taking each other permutation of its keys, plus "rev".
+// run executes the program once with the given extra environment.
+func c10MapOrders(dir string, run func(env []string)) []string {
+	lf := filepath.Join(filepath.Dir(dir), "maplog.txt")
+	os.Remove(lf)
+	run([]string{"VERIF_MAPORDER=", "VERIF_MAPLOG=" + lf})
+	orders := []string{""}
+	b, _ := os.ReadFile(lf)
+	os.Remove(lf)
+	for _, l := range strings.Split(strings.TrimSpace(string(b)), "\n") {
+		var j, n int
+		var site string
+		if k, _ := fmt.Sscanf(l, "%d %s %d", &j, &site, &n); k != 3 {
+			continue
+		}
+		f := 1
+		for i := 2; i <= n && f < 24; i++ {
+			f *= i
+		}
+		for p := 1; p < f; p++ {
+			orders = append(orders, fmt.Sprintf("%d:%d", j, p))
+		}
+	}
+	if len(orders) > 1 {
+		orders = append(orders, "rev") // every map range descending: also reaches ranges that only run on failure paths
+	}
+	return orders
 }
 
 func isControl(name string) bool { return strings.HasPrefix(name, ".") }
@@ -78,27 +110,26 @@ func c10Prepare(dir string, sc c10Scenario) {
 
 // c10Crash runs the scenario with a crash before point k (shim point, or k-th file system call under the
 // directory when sys is set) and judges the directory.
-func c10Crash(c *core.Ctx, dir string, sc c10Scenario, k int, pt string, sys bool, newFiles map[string]string, midFiles map[string]string) {
+func c10Crash(c *core.Ctx, dir string, sc c10Scenario, mo string, k int, pt string, sys bool, newFiles map[string]string, midFiles map[string]string) {
 	c10Prepare(dir, sc)
-	payload := c10Payload{Scenario: sc, K: k, Point: pt, Syscall: sys}
+	payload := c10Payload{Scenario: sc, K: k, Point: pt, Syscall: sys, MapOrder: mo}
 	if sys {
 		cmd := exec.Command(procx.Binary(), sc.Args...)
 		cmd.Dir = dir
-		cmd.Env = []string{"HOME=" + procx.Home(), "XDG_CONFIG_HOME=" + procx.Home(), "PATH=/usr/bin:/bin", "TZ=UTC", "GOMAXPROCS=2"}
+		cmd.Env = []string{"HOME=" + procx.Home(), "XDG_CONFIG_HOME=" + procx.Home(), "PATH=/usr/bin:/bin", "TZ=UTC", "GOMAXPROCS=2", "VERIF_MAPORDER=" + mo}
 		r := ptx.Run(cmd, dir, k)
 		if !r.Killed {
 			c.Incomplete(fmt.Sprintf("scenario %s: process was not killed at file system call %d (err %v) - call sequence not stable between runs", sc.Name, k, r.Err))
 			return
 		}
 		if got := r.Calls[len(r.Calls)-1].String(); got != pt {
-			// several tables are committed in Go map order, which differs from run to run: the k-th call of this
-			// run is a legitimate crash point too; it is judged as what it is
+			// the k-th call of this run is a legitimate crash point too; it is judged as what it is
 			c.Add("points_differing_from_reference_run", 1)
 			pt = got
 			payload.Point = got
 		}
 	} else {
-		out := procx.Exec(procx.Run{Dir: dir, Args: sc.Args, Env: []string{fmt.Sprintf("VERIF_CRASH_AT=%d", k)}})
+		out := procx.Exec(procx.Run{Dir: dir, Args: sc.Args, Env: []string{fmt.Sprintf("VERIF_CRASH_AT=%d", k), "VERIF_MAPORDER=" + mo}})
 		if out.Exit != -1 {
 			c.Incomplete(fmt.Sprintf("scenario %s: process was not killed at point %d (exit %d) - points are not stable between runs", sc.Name, k, out.Exit))
 			return
@@ -148,11 +179,11 @@ func c10Crash(c *core.Ctx, dir string, sc c10Scenario, k int, pt string, sys boo
 }
 
 // c10SyscallRef lists the file system calls (under dir) of a complete run.
-func c10SyscallRef(dir string, sc c10Scenario) []ptx.Call {
+func c10SyscallRef(dir string, sc c10Scenario, mo string) []ptx.Call {
 	c10Prepare(dir, sc)
 	cmd := exec.Command(procx.Binary(), sc.Args...)
 	cmd.Dir = dir
-	cmd.Env = []string{"HOME=" + procx.Home(), "XDG_CONFIG_HOME=" + procx.Home(), "PATH=/usr/bin:/bin", "TZ=UTC", "GOMAXPROCS=2"}
+	cmd.Env = []string{"HOME=" + procx.Home(), "XDG_CONFIG_HOME=" + procx.Home(), "PATH=/usr/bin:/bin", "TZ=UTC", "GOMAXPROCS=2", "VERIF_MAPORDER=" + mo}
 	r := ptx.Run(cmd, dir, 0)
 	if r.Err != nil || r.Exit != 0 {
 		return nil
@@ -176,7 +207,7 @@ func clip(s string) string {
 	return s
 }
 
-func c10Reference(c *core.Ctx, dir string, sc c10Scenario) ([]procx.TracePoint, map[string]string, map[string]string, bool) {
+func c10Reference(c *core.Ctx, dir string, sc c10Scenario, mo string) ([]procx.TracePoint, map[string]string, map[string]string, bool) {
 	var mid map[string]string
 	if sc.Mid != nil {
 		c10Prepare(dir, sc)
@@ -186,15 +217,15 @@ func c10Reference(c *core.Ctx, dir string, sc c10Scenario) ([]procx.TracePoint, 
 	}
 	c10Prepare(dir, sc)
 	tr := filepath.Join(filepath.Dir(dir), "trace-"+sc.Name+".txt")
-	out := procx.Exec(procx.Run{Dir: dir, Args: sc.Args, Env: []string{"VERIF_TRACE=" + tr}})
+	out := procx.Exec(procx.Run{Dir: dir, Args: sc.Args, Env: []string{"VERIF_TRACE=" + tr, "VERIF_MAPORDER=" + mo}})
 	if out.Exit != 0 {
-		c.Violate("scenario-fails-without-crash:"+sc.Name, fmt.Sprintf("scenario %s exits %d without any injected crash: %s", sc.Name, out.Exit, clip(out.Stderr)), c10Payload{Scenario: sc})
+		c.Violate("scenario-fails-without-crash:"+sc.Name, fmt.Sprintf("scenario %s exits %d without any injected crash: %s", sc.Name, out.Exit, clip(out.Stderr)), c10Payload{Scenario: sc, MapOrder: mo})
 		return nil, nil, nil, false
 	}
 	snap := drv.DirSnapshot(dir)
 	for n := range snap {
 		if isControl(n) {
-			c.Violate("leftover-after-complete-run", fmt.Sprintf("scenario %s: %s remains after a complete run", sc.Name, n), c10Payload{Scenario: sc})
+			c.Violate("leftover-after-complete-run", fmt.Sprintf("scenario %s: %s remains after a complete run", sc.Name, n), c10Payload{Scenario: sc, MapOrder: mo})
 		}
 	}
 	return out.Trace, snap, mid, true
@@ -203,76 +234,90 @@ func c10Reference(c *core.Ctx, dir string, sc c10Scenario) ([]procx.TracePoint, 
 func c10Run(c *core.Ctx) {
 	dir := core.Scratch("c10")
 	var idx int64
-	for _, sc := range c10Scenarios(c.Thorough()) {
-		ref, newFiles, midFiles, ok := c10Reference(c, dir, sc)
-		if !ok {
-			continue
-		}
-		firstChange := len(ref) + 1
-		for _, tp := range ref {
-			if tp.Name == "create" || tp.Name == "rename" || tp.Name == "remove" || tp.Name == "write" || tp.Name == "truncate" {
-				firstChange = tp.K
-				break
-			}
-		}
+	for _, sc0 := range c10Scenarios(c.Thorough()) {
+		orders := c10MapOrders(dir, func(env []string) {
+			c10Prepare(dir, sc0)
+			procx.Exec(procx.Run{Dir: dir, Args: sc0.Args, Env: env})
+		})
 		if c.Shard == 0 {
-			names := make([]string, len(ref))
-			for i, tp := range ref {
-				names[i] = tp.String()
-			}
-			c.Observe("scenarios", fmt.Sprintf("%s: %d points", sc.Name, len(ref)))
-			if sc.Name == "update-1" {
-				c.Sample(map[string]any{"scenario": sc.Name, "program": sc.Args, "points": names})
-			}
+			c.Add("map_orders_explored", int64(len(orders)))
 		}
-		for k := 1; k <= len(ref)+1; k++ {
-			idx++
-			if !c.Mine(idx) {
+		for _, mo := range orders {
+			sc := sc0
+			tag := sc.Name
+			if mo != "" {
+				tag += "[map " + mo + "]"
+			}
+			ref, newFiles, midFiles, ok := c10Reference(c, dir, sc, mo)
+			if !ok {
 				continue
 			}
-			if c.Expired() {
-				c.Incomplete("time budget reached")
-				return
+			firstChange := len(ref) + 1
+			for _, tp := range ref {
+				if tp.Name == "create" || tp.Name == "rename" || tp.Name == "remove" || tp.Name == "write" || tp.Name == "truncate" {
+					firstChange = tp.K
+					break
+				}
 			}
-			if k == len(ref)+1 {
-				continue // past the last point: the complete run, already judged
+			if c.Shard == 0 {
+				names := make([]string, len(ref))
+				for i, tp := range ref {
+					names[i] = tp.String()
+				}
+				c.Observe("scenarios", fmt.Sprintf("%s: %d points", tag, len(ref)))
+				if sc.Name == "update-1" || sc.Name == "update-2" {
+					c.Sample(map[string]any{"scenario": tag, "program": sc.Args, "points": names})
+				}
 			}
-			c10Crash(c, dir, sc, k, ref[k-1].String(), false, newFiles, midFiles)
-			c.Eval(fmt.Sprintf("%s@%d", sc.Name, k), k > firstChange)
-		}
-		// the same at system-call granularity: kill before every file system call that touches the directory
-		calls := c10SyscallRef(dir, sc)
-		if calls == nil {
-			c.Incomplete("scenario " + sc.Name + ": ptrace run failed; system-call granularity not covered")
-			continue
-		}
-		c.Add("syscall_level_points", 0)
-		firstMod := len(calls) + 1
-		for _, cl := range calls {
-			if cl.Name != "openat" && cl.Name != "close" && cl.Name != "flock" || strings.HasPrefix(cl.Path, ".") {
-				firstMod = cl.K
-				break
+			for k := 1; k <= len(ref)+1; k++ {
+				idx++
+				if !c.Mine(idx) {
+					continue
+				}
+				if c.Expired() {
+					c.Incomplete("time budget reached")
+					return
+				}
+				if k == len(ref)+1 {
+					continue // past the last point: the complete run, already judged
+				}
+				c10Crash(c, dir, sc, mo, k, ref[k-1].String(), false, newFiles, midFiles)
+				c.Eval(fmt.Sprintf("%s@%d", tag, k), k > firstChange)
 			}
-		}
-		if c.Shard == 0 && sc.Name == "update-1" {
-			cs := make([]string, len(calls))
-			for i, cl := range calls {
-				cs[i] = cl.String()
-			}
-			c.Sample(map[string]any{"scenario": sc.Name, "file_system_calls_under_the_directory": cs})
-		}
-		for k := 1; k <= len(calls); k++ {
-			idx++
-			if !c.Mine(idx) {
+			// the same at system-call granularity: kill before every file system call that touches the directory
+			calls := c10SyscallRef(dir, sc, mo)
+			if calls == nil {
+				c.Incomplete("scenario " + tag + ": ptrace run failed; system-call granularity not covered")
 				continue
 			}
-			if c.Expired() {
-				c.Incomplete("time budget reached")
-				return
+			c.Add("syscall_level_points", 0)
+			firstMod := len(calls) + 1
+			for _, cl := range calls {
+				if cl.Name != "openat" && cl.Name != "close" && cl.Name != "flock" || strings.HasPrefix(cl.Path, ".") {
+					firstMod = cl.K
+					break
+				}
 			}
-			c10Crash(c, dir, sc, k, calls[k-1].String(), true, newFiles, midFiles)
-			c.Eval(fmt.Sprintf("%s@sys%d", sc.Name, k), k > firstMod)
-			c.Add("syscall_level_points", 1)
+			if c.Shard == 0 && sc.Name == "update-1" {
+				cs := make([]string, len(calls))
+				for i, cl := range calls {
+					cs[i] = cl.String()
+				}
+				c.Sample(map[string]any{"scenario": tag, "file_system_calls_under_the_directory": cs})
+			}
+			for k := 1; k <= len(calls); k++ {
+				idx++
+				if !c.Mine(idx) {
+					continue
+				}
+				if c.Expired() {
+					c.Incomplete("time budget reached")
+					return
+				}
+				c10Crash(c, dir, sc, mo, k, calls[k-1].String(), true, newFiles, midFiles)
+				c.Eval(fmt.Sprintf("%s@sys%d", tag, k), k > firstMod)
+				c.Add("syscall_level_points", 1)
+			}
 		}
 	}
 }
@@ -284,11 +329,11 @@ func c10Replay(c *core.Ctx, payload json.RawMessage) {
 		return
 	}
 	dir := core.Scratch("c10")
-	ref, newFiles, midFiles, ok := c10Reference(c, dir, p.Scenario)
+	ref, newFiles, midFiles, ok := c10Reference(c, dir, p.Scenario, p.MapOrder)
 	if !ok {
 		return
 	}
 	_ = ref
-	fmt.Printf("replaying scenario %s, kill before %d %s (syscall level: %v)\n", p.Scenario.Name, p.K, p.Point, p.Syscall)
-	c10Crash(c, dir, p.Scenario, p.K, p.Point, p.Syscall, newFiles, midFiles)
+	fmt.Printf("replaying scenario %s (map order %q), kill before %d %s (syscall level: %v)\n", p.Scenario.Name, p.MapOrder, p.K, p.Point, p.Syscall)
+	c10Crash(c, dir, p.Scenario, p.MapOrder, p.K, p.Point, p.Syscall, newFiles, midFiles)
 }
